@@ -75,7 +75,7 @@ def setups(draw, max_sites=12, max_order=4):
         spectator, nmob = others, len(crys.basis[chem])
     S = draw(cxs.supercells(max(1, max_sites // nmob)))
     size = abs(int(round(np.linalg.det(np.array(S)))))
-    k, order = _fit(crys, draw(st.sampled_from([1, 1, 2, 2, 3])), draw(st.sampled_from([o for o in (1, 2, 2, 3, 3, 4) if o <= max_order])))
+    k, order = _fit(crys, draw(st.sampled_from([1, 1, 2, 2, 3])), draw(st.sampled_from([o for o in (1, 2, 2, 2, 3, 3, 3, 3, 4, 4) if o <= max_order])))
     nspec = sum(len(crys.basis[c]) for c in spectator) * size
     socc = [draw(st.integers(0, 1)) for _ in range(nspec)]
     const = draw(st.booleans())
